@@ -404,6 +404,12 @@ type c18Spec struct {
 	Prep    string   `json:"prep,omitempty"`    // "" = written to, never loaded | "never" = opened, nothing else | "load" = Load before the writes
 	Feed    string   `json:"feed,omitempty"`    // stuck: sync | direct | loadmore | loadmore-stub | snapshot | ancestors | load | snapfile
 	Cfgs    []c18Cfg `json:"cfgs,omitempty"`    // iclose: configuration of every database
+	// CreateDBOptions.Directory names a directory other than the instance's (altDir); cycle: the
+	// database is opened the first time through Create (ViaCreate) and then Cycles times closed and
+	// reopened from its address on the same instance
+	CustomDir bool `json:"customdir,omitempty"`
+	ViaCreate bool `json:"via_create,omitempty"`
+	Cycles    int  `json:"cycles,omitempty"`
 	// drop / sameroot: three databases share one manifest root R: "parent" /orbitdb/R/<name>
 	// (created), "deep" /orbitdb/R/archive/<name> and "child" /orbitdb/R/<name>/sub (both opened by
 	// hand-made address).  Shape names the one that is dropped (drop) or closed (sameroot).
@@ -412,16 +418,36 @@ type c18Spec struct {
 
 // c18Cfg mirrors Lifecycle.config.
 type c18Cfg struct {
-	Repl    bool `json:"replicate"`
-	Mem     bool `json:"memory"`
-	Limited bool `json:"limited"`
+	Repl      bool `json:"replicate"`
+	Mem       bool `json:"memory"`
+	Limited   bool `json:"limited"`
+	CustomDir bool `json:"customdir,omitempty"`
 }
 
 func (c c18Cfg) coq() string {
-	return fmt.Sprintf("(mkCfg %s %s %s)", sim.CoqBool(c.Repl), sim.CoqBool(c.Mem), sim.CoqBool(c.Limited))
+	return fmt.Sprintf("(mkCfg %s %s %s %s)", sim.CoqBool(c.Repl), sim.CoqBool(c.Mem), sim.CoqBool(c.Limited), sim.CoqBool(c.CustomDir))
 }
 
-func (sp c18Spec) cfg() c18Cfg { return c18Cfg{Repl: !sp.NoRepl, Mem: sp.Mem, Limited: sp.MaxHist > 0} }
+func (sp c18Spec) cfg() c18Cfg {
+	return c18Cfg{Repl: !sp.NoRepl, Mem: sp.Mem, Limited: sp.MaxHist > 0, CustomDir: sp.CustomDir}
+}
+
+// altDir: the directory given as CreateDBOptions.Directory to the databases of instance A that
+// are opened with a custom directory (one per instance: the cache a lookup opens below it stays
+// open, and locked, until the instance is closed).  Always on disk, also for an instance in memory.
+func altDir(A *sim.Replica) string {
+	return filepath.Join(A.Env.Work, fmt.Sprintf("alt-%s-%d", A.Label, A.Idx))
+}
+
+// on: the options of configuration c for a database of instance A (the Directory option needs
+// the instance)
+func (c c18Cfg) on(A *sim.Replica, o *orbitdb.CreateDBOptions) *orbitdb.CreateDBOptions {
+	if c.CustomDir {
+		d := altDir(A)
+		o.Directory = &d
+	}
+	return o
+}
 
 func coqCfgs(cs []c18Cfg) string {
 	var ts []string
@@ -547,6 +573,7 @@ func c18Plan(r *Run) []c18Spec {
 		if r.Rng.Intn(3) == 0 {
 			s.Opener = "creator"
 		}
+		s.CustomDir = r.Rng.Intn(5) == 0
 		switch r.Rng.Intn(6) {
 		case 0:
 			if w == whenIdle {
@@ -608,6 +635,20 @@ func c18Plan(r *Run) []c18Spec {
 		add(c18Spec{Kind: "close", When: whenIdle, Type: types[r.Rng.Intn(3)], Prep: "never", Mem: true, Opener: "creator", Times: 1})
 		add(c18Spec{Kind: "close", When: whenIdle, Type: types[r.Rng.Intn(3)], Writes: 2 + r.Rng.Intn(4), Remote: 1, MaxHist: 1 + r.Rng.Intn(2), Prep: "load", Opener: "creator", Times: 1})
 		add(c18Spec{Kind: "close", When: whenMidLoad, Type: types[r.Rng.Intn(3)], Writes: 2 + r.Rng.Intn(4), Remote: 1, MaxHist: 1 + r.Rng.Intn(2), NoRepl: r.Rng.Intn(2) == 0, Times: 1})
+		// a Directory option other than the instance's directory: idle, a write in flight, replication
+		// in flight, mid-load (which closes and reopens the store first); on disk and in memory;
+		// opened from the address by a second instance, or created with the option by its creator
+		add(c18Spec{Kind: "close", When: whenIdle, Type: types[r.Rng.Intn(3)], Writes: 1 + r.Rng.Intn(4), CustomDir: true, NoRepl: r.Rng.Intn(2) == 0, Times: 1 + r.Rng.Intn(2)})
+		add(c18Spec{Kind: "close", When: whenAfterPersist, Type: types[r.Rng.Intn(3)], Writes: 1 + r.Rng.Intn(4), CustomDir: true, Opener: "creator", Times: 1})
+		add(c18Spec{Kind: "close", When: whenAfterDequeue, Type: types[r.Rng.Intn(3)], Writes: 1 + r.Rng.Intn(4), Remote: 1 + r.Rng.Intn(2), CustomDir: true, Mem: true, Times: 1})
+		add(c18Spec{Kind: "close", When: whenMidLoad, Type: types[r.Rng.Intn(3)], Writes: 1 + r.Rng.Intn(4), Remote: r.Rng.Intn(2), CustomDir: true, Opener: []string{"", "creator"}[r.Rng.Intn(2)], Times: 1})
+		// ... closed and reopened on the same instance several times (each incarnation loads, writes
+		// and is closed), then reopened by a fresh instance; the control without the option
+		add(c18Spec{Kind: "cycle", Type: types[r.Rng.Intn(3)], CustomDir: true, ViaCreate: false, Cycles: 3})
+		add(c18Spec{Kind: "cycle", Type: types[r.Rng.Intn(3)], CustomDir: true, ViaCreate: true, Cycles: 3, NoRepl: r.Rng.Intn(2) == 0})
+		add(c18Spec{Kind: "cycle", Type: types[r.Rng.Intn(3)], CustomDir: true, ViaCreate: r.Rng.Intn(2) == 0, Cycles: 2 + r.Rng.Intn(2), Mem: true})
+		add(c18Spec{Kind: "cycle", Type: types[r.Rng.Intn(3)], ViaCreate: r.Rng.Intn(2) == 0, Cycles: 2 + r.Rng.Intn(2), NoRepl: r.Rng.Intn(2) == 0, Mem: r.Rng.Intn(4) == 0})
+		add(c18Spec{Kind: "cycle", Type: types[r.Rng.Intn(3)], CustomDir: r.Rng.Intn(2) == 0, ViaCreate: r.Rng.Intn(2) == 0, Cycles: 1 + r.Rng.Intn(4), NoRepl: r.Rng.Intn(2) == 0, Mem: r.Rng.Intn(3) == 0})
 		// Load parked in a fetch that succeeds after Close (block API that ignores cancellation for local blocks)
 		add(c18Spec{Kind: "close", When: whenMidLoad, Variant: "lenient", Type: types[r.Rng.Intn(3)], Writes: 1 + r.Rng.Intn(4), Remote: r.Rng.Intn(3), Times: 1})
 		add(c18Spec{Kind: "close", When: whenMidLoad, Variant: "lenient", Type: types[r.Rng.Intn(3)], Writes: 1 + r.Rng.Intn(4), Remote: r.Rng.Intn(3), NoRepl: true, Times: 1 + r.Rng.Intn(3)})
@@ -651,7 +692,7 @@ func c18Plan(r *Run) []c18Spec {
 		icfgs := func(n int, mem bool) []c18Cfg {
 			var cs []c18Cfg
 			for k := 0; k < n; k++ {
-				cs = append(cs, c18Cfg{Repl: r.Rng.Intn(2) == 0, Mem: mem, Limited: r.Rng.Intn(4) == 0})
+				cs = append(cs, c18Cfg{Repl: r.Rng.Intn(2) == 0, Mem: mem, Limited: r.Rng.Intn(4) == 0, CustomDir: r.Rng.Intn(4) == 0})
 			}
 			return cs
 		}
@@ -692,6 +733,11 @@ func c18Plan(r *Run) []c18Spec {
 		add(c18Spec{Kind: "drop", Variant: "stuckfetch", Type: types[r.Rng.Intn(3)], Writes: 1 + r.Rng.Intn(4), NDB: 2, NoRepl: r.Rng.Intn(2) == 0, Mem: true})
 		add(c18Spec{Kind: "drop", Variant: "open", Type: types[r.Rng.Intn(3)], Prep: "never", NDB: 2, NoRepl: r.Rng.Intn(2) == 0})
 		add(c18Spec{Kind: "drop", Variant: []string{"open", "closed", "twice", "stale"}[r.Rng.Intn(4)], Type: types[r.Rng.Intn(3)], Writes: 1 + r.Rng.Intn(4), NDB: 2, Mem: true})
+		// Drop of a database opened with a Directory option other than the instance's directory
+		// (every second sibling has the same option; foreign files in both directories)
+		for i, v := range []string{"open", "closed", "twice"} {
+			add(c18Spec{Kind: "drop", Variant: []string{"open", "closed", "twice", "stale"}[(i+rep)%4], Type: types[r.Rng.Intn(3)], Writes: 1 + r.Rng.Intn(4), NDB: 2 + r.Rng.Intn(2), CustomDir: true, NoRepl: i == 1, Mem: v == "twice"})
+		}
 		// databases that share a manifest root: Drop of the parent, the deep one, the child ...
 		for i, shape := range []string{"parent", "deep", "child"} {
 			add(c18Spec{Kind: "drop", Variant: []string{"open", "closed", "twice"}[(i+rep)%3], Shape: shape, Type: types[r.Rng.Intn(3)], Writes: 1 + r.Rng.Intn(3), NDB: 1, NoRepl: r.Rng.Intn(3) == 0})
@@ -953,6 +999,8 @@ func c18Run(r *Run, sp c18Spec, out *c18Result) error {
 		return c18RealNet(r, sp, out)
 	case "race":
 		return c18Race(r, sp, out)
+	case "cycle":
+		return c18Cycle(r, sp, out)
 	}
 	return fmt.Errorf("unknown scenario kind %q", sp.Kind)
 }
@@ -1024,7 +1072,7 @@ func (o *c18Result) addCloseCfg(cfgs []c18Cfg, when, times int, concurrent bool,
 	o.add(coqCClose(cfgs, when, times, concurrent, nums, classes), d, true)
 	o.count(fmt.Sprintf("close:when=%d", when))
 	for _, c := range cfgs {
-		o.count(fmt.Sprintf("close:config:replicate=%v,memory=%v,limited=%v", c.Repl, c.Mem, c.Limited))
+		o.count(fmt.Sprintf("close:config:replicate=%v,memory=%v,limited=%v,customdir=%v", c.Repl, c.Mem, c.Limited, c.CustomDir))
 	}
 	if concurrent {
 		o.count("close:concurrent")
@@ -1131,7 +1179,7 @@ func c18Pair(sp c18Spec) (s *Scen, A, B *sim.Replica, stB iface.Store, addr stri
 	}
 	if sp.Opener == "creator" {
 		var st0 iface.Store
-		if st0, err = A.Orbit.Create(ctx, "db-"+s.Label, sp.Type, &orbitdb.CreateDBOptions{AccessController: acBoth(A, B)}); err != nil {
+		if st0, err = A.Orbit.Create(ctx, "db-"+s.Label, sp.Type, sp.cfg().on(A, &orbitdb.CreateDBOptions{AccessController: acBoth(A, B)})); err != nil {
 			return
 		}
 		addr = st0.Address().String()
@@ -1153,7 +1201,7 @@ func c18Pair(sp c18Spec) (s *Scen, A, B *sim.Replica, stB iface.Store, addr stri
 // its preparation ("load": Load before anything else, Load(0) when MaxHistory is set).
 func c18Open(sp c18Spec, A *sim.Replica, addr string) (iface.Store, error) {
 	ctx := context.Background()
-	st, err := withMaxHistory(A.Orbit, sp.MaxHist, func() (iface.Store, error) { return A.Orbit.Open(ctx, addr, sp.dbOpts(nil)) })
+	st, err := withMaxHistory(A.Orbit, sp.MaxHist, func() (iface.Store, error) { return A.Orbit.Open(ctx, addr, sp.cfg().on(A, sp.dbOpts(nil))) })
 	if err != nil {
 		return nil, err
 	}
@@ -1184,6 +1232,9 @@ func (sp c18Spec) describe(extra map[string]interface{}) {
 	}
 	if sp.MaxHist > 0 {
 		extra["max_history"] = sp.MaxHist
+	}
+	if sp.CustomDir {
+		extra["directory_option"] = "other than the instance's directory"
 	}
 	if sp.Feed != "" {
 		extra["feed"] = sp.Feed
@@ -1346,7 +1397,7 @@ func c18Close(r *Run, sp c18Spec, out *c18Result) error {
 		if c, m := callClass(10*time.Second, stA.Close); c != clsOK {
 			return fmt.Errorf("preparatory close: %s %s", clsName[c], m)
 		}
-		stA, err = withMaxHistory(A.Orbit, sp.MaxHist, func() (iface.Store, error) { return A.Orbit.Open(ctx, addr, sp.dbOpts(nil)) })
+		stA, err = withMaxHistory(A.Orbit, sp.MaxHist, func() (iface.Store, error) { return A.Orbit.Open(ctx, addr, sp.cfg().on(A, sp.dbOpts(nil))) })
 		if err != nil {
 			return fmt.Errorf("preparatory reopen: %w", err)
 		}
@@ -1401,6 +1452,34 @@ func c18Close(r *Run, sp c18Spec, out *c18Result) error {
 		}()
 		select {
 		case <-arrived:
+		case l := <-lres:
+			// Load answered without fetching a block
+			close(release)
+			A.API.SetGate(nil)
+			if lenient != nil {
+				lenient.setGate(nil)
+			}
+			if l.cls == clsOK {
+				return fmt.Errorf("load returned without a block fetch")
+			}
+			// the store, closed and opened again on the same instance, cannot load: the observation of
+			// a close/reopen cycle whose last incarnation fails (the earlier ones loaded and wrote)
+			outcomes := []int{clsOK, l.cls}
+			if sp.Opener == "creator" {
+				outcomes = []int{clsOK, clsOK, l.cls}
+			}
+			d := map[string]interface{}{"kind": "cycle", "address": addr, "via_create": sp.Opener == "creator", "outcomes": outcomes, "messages": []string{"load: " + l.msg},
+				"complete": false, "note": "the reopened store of a mid-load scenario"}
+			sp.describe(d)
+			d["sig"] = "cycle:reopen-on-the-same-instance"
+			if sp.CustomDir && strings.Contains(l.msg, "leveldb: closed") {
+				d["sig"] = "cycle:directory-option:reopened-store-has-a-closed-cache"
+			}
+			out.add(fmt.Sprintf("(CCycle %s %s %s false)", sp.cfg().coq(), sim.CoqBool(sp.Opener == "creator"), sim.CoqListN(outcomes)), d, true)
+			_ = callClassIgnore(stA.Close)
+			_ = callClassIgnore(A.Orbit.Close)
+			_ = callClassIgnore(B.Orbit.Close)
+			return nil
 		case <-time.After(5 * time.Second):
 			close(release)
 			A.API.SetGate(nil)
@@ -2006,7 +2085,7 @@ func c18InstanceClose(r *Run, sp c18Spec, out *c18Result) error {
 		}
 		name := fmt.Sprintf("db-%s-%d", label, k)
 		st, err := withMaxHistory(A.Orbit, map[bool]int{true: 2, false: 0}[cfg.Limited], func() (iface.Store, error) {
-			return A.Orbit.Create(ctx, name, typ, cfg.dbOpts(0, acBoth(A)))
+			return A.Orbit.Create(ctx, name, typ, cfg.on(A, cfg.dbOpts(0, acBoth(A))))
 		})
 		if err != nil {
 			return err
@@ -2169,6 +2248,7 @@ type sibling struct {
 	intact bool
 	why    string
 	role   string // same-root sibling: parent | deep | child
+	odir   string // opened with a Directory option: what its lookup left below that directory
 }
 
 // sameRootTrio: the addresses of three databases under the manifest root of `name`: Open accepts
@@ -2244,8 +2324,10 @@ func c18Drop(r *Run, sp c18Spec, out *c18Result) error {
 			typ = sp.Type
 			ac = &accesscontroller.CreateAccessControllerOptions{Access: map[string][]string{"write": {A.Orbit.Identity().ID, "someone-else"}}}
 		}
-		// siblings alternate between replicating and not
-		st, err := A.Orbit.Create(ctx, name, typ, c18Cfg{Repl: k%2 == 0}.dbOpts(0, ac))
+		// siblings alternate between replicating and not; when the dropped database has a Directory
+		// option, every second sibling has the same one
+		scfg := c18Cfg{Repl: k%2 == 0, CustomDir: sp.CustomDir && k%2 == 1}
+		st, err := A.Orbit.Create(ctx, name, typ, scfg.on(A, scfg.dbOpts(0, ac)))
 		if err != nil {
 			return fmt.Errorf("create sibling %d: %w", k, err)
 		}
@@ -2255,7 +2337,29 @@ func c18Drop(r *Run, sp c18Spec, out *c18Result) error {
 			}
 		}
 		h, _ := st.Cache().Get(ctx, datastore.NewKey("_localHeads"))
-		sibs = append(sibs, &sibling{st: st, addr: st.Address().String(), acked: c18Hashes(st), heads: h, cdir: cacheDirOf(A.Dir, st), typ: typ})
+		sb := &sibling{st: st, addr: st.Address().String(), acked: c18Hashes(st), heads: h, cdir: cacheDirOf(A.Dir, st), typ: typ}
+		if od := cacheDirOf(altDir(A), st); scfg.CustomDir && dirFiles(od) > 0 {
+			sb.odir = od // what the lookup of its Open left below the option's directory
+		}
+		sibs = append(sibs, sb)
+	}
+	// files that are nobody's database, in the instance's directory and in the option's
+	var foreignFiles []string
+	if sp.CustomDir {
+		dirs := []string{altDir(A)}
+		if !sp.Mem {
+			dirs = append(dirs, A.Dir)
+		}
+		for _, d := range dirs {
+			f := filepath.Join(d, "notes-"+label+".txt")
+			if err := os.MkdirAll(d, 0o755); err != nil {
+				return err
+			}
+			if err := os.WriteFile(f, []byte("not a database: "+label), 0o644); err != nil {
+				return err
+			}
+			foreignFiles = append(foreignFiles, f)
+		}
 	}
 	// siblings that share the manifest root with the database that is dropped
 	var trio map[string]string
@@ -2286,9 +2390,9 @@ func c18Drop(r *Run, sp c18Spec, out *c18Result) error {
 	beforeX := goroutineIDs()
 	X, err := withMaxHistory(A.Orbit, sp.MaxHist, func() (iface.Store, error) {
 		if sp.Shape != "" {
-			return openRole(ctx, A, trio, sp.Shape, "x-"+label, sp.Type, sp.dbOpts(nil))
+			return openRole(ctx, A, trio, sp.Shape, "x-"+label, sp.Type, sp.cfg().on(A, sp.dbOpts(nil)))
 		}
-		return A.Orbit.Create(ctx, "x-"+label, sp.Type, sp.dbOpts(acBoth(A)))
+		return A.Orbit.Create(ctx, "x-"+label, sp.Type, sp.cfg().on(A, sp.dbOpts(acBoth(A))))
 	})
 	if err != nil {
 		return err
@@ -2405,6 +2509,14 @@ func c18Drop(r *Run, sp c18Spec, out *c18Result) error {
 		if !sp.Mem && dirFiles(sb.cdir) <= 0 {
 			sb.intact, sb.why = false, "cache directory gone or empty"
 		}
+		if sb.odir != "" && dirFiles(sb.odir) <= 0 {
+			sb.intact, sb.why = false, "the sibling's directory below the Directory option gone or empty"
+		}
+		for _, f := range foreignFiles {
+			if b, err := os.ReadFile(f); err != nil || !strings.HasPrefix(string(b), "not a database") {
+				sb.intact, sb.why = false, fmt.Sprintf("foreign file %s damaged (err=%v)", f, err)
+			}
+		}
 		if got := c18Hashes(sb.st); len(got) != len(sb.acked) {
 			sb.intact, sb.why = false, "in-memory entries changed"
 		}
@@ -2429,6 +2541,31 @@ func c18Drop(r *Run, sp c18Spec, out *c18Result) error {
 	} else {
 		empty = X2.OpLog().Len() == 0
 		emsg = fmt.Sprintf("%d entries after reopen", X2.OpLog().Len())
+	}
+	// with a Directory option: nothing of the database may be loaded with the option either,
+	// now on this instance and later by fresh instances on the instance's and on the option's directory
+	loadedFrom := func(o orbitdb.OrbitDB, opts *orbitdb.CreateDBOptions, what string) {
+		var st iface.Store
+		if c, m := callClass(20*time.Second, func() error {
+			var err error
+			st, err = o.Open(ctx, xaddr, opts)
+			return err
+		}); c != clsOK {
+			empty, emsg = false, emsg+"; "+what+": open: "+clsName[c]+" "+m
+			return
+		}
+		if c, m := callClass(20*time.Second, func() error { return st.Load(ctx, -1) }); c != clsOK {
+			empty, emsg = false, emsg+"; "+what+": load: "+clsName[c]+" "+m
+		} else if n := st.OpLog().Len(); n != 0 {
+			empty, emsg = false, emsg+fmt.Sprintf("; %s: %d entries", what, n)
+		} else {
+			emsg += "; " + what + ": 0 entries"
+		}
+		_ = callClassIgnore(st.Close)
+	}
+	if sp.CustomDir && X2 != nil {
+		_ = callClassIgnore(X2.Close)
+		loadedFrom(A.Orbit, sp.cfg().on(A, &orbitdb.CreateDBOptions{}), "same instance, with the Directory option")
 	}
 	// instance close, reopen the directory: siblings complete
 	c, m := callClass(20*time.Second, A.Orbit.Close)
@@ -2460,12 +2597,36 @@ func c18Drop(r *Run, sp c18Spec, out *c18Result) error {
 		}
 		out.Cases = append(out.Cases[:nBefore], keep...)
 		if A2 != nil {
+			if sp.CustomDir {
+				loadedFrom(A2.Orbit, &orbitdb.CreateDBOptions{}, "fresh instance on the instance's directory")
+				loadedFrom(A2.Orbit, sp.cfg().on(A, &orbitdb.CreateDBOptions{}), "fresh instance on the instance's directory, with the Directory option")
+			}
 			_ = A2.Orbit.Close()
 		}
 	} else if memDirOnDisk() {
 		out.Direct = append(out.Direct, c18Direct{Sig: "memory:on-disk", What: "an instance on " + memDir + " left a directory of that name in the working directory", Case: map[string]interface{}{}})
 	}
+	if sp.CustomDir {
+		// a fresh instance whose own directory is the option's directory
+		if A3, err := env.NewReplicaOpts(A.Idx, label, altDir(A), A.PID, nil); err != nil {
+			empty, emsg = false, emsg+"; fresh instance on the option's directory: "+err.Error()
+		} else {
+			loadedFrom(A3.Orbit, &orbitdb.CreateDBOptions{}, "fresh instance on the option's directory")
+			_ = A3.Orbit.Close()
+		}
+		for _, sb := range sibs {
+			for _, f := range foreignFiles {
+				if _, err := os.Stat(f); err != nil && sb.intact {
+					sb.intact, sb.why = false, "foreign file "+f+" gone"
+				}
+			}
+		}
+	}
 	settleLeaks(before, leakBudget)
+	optDir := ""
+	if sp.CustomDir {
+		optDir = altDir(A)
+	}
 	for k, sb := range sibs {
 		d := map[string]interface{}{"kind": "drop", "variant": sp.Variant, "dropped": xaddr, "sibling": sb.addr, "drop_outcome": clsName[dcls], "drop_message": dmsg,
 			"dropped_dir_removed": removed, "dropped_reopens_empty": empty, "reopen": emsg, "sibling_intact": sb.intact, "why": sb.why, "same_name": k == 0, "config": sp.cfg()}
@@ -2482,10 +2643,213 @@ func c18Drop(r *Run, sp c18Spec, out *c18Result) error {
 		} else if !empty || !removed {
 			d["sig"] = "drop:not-empty"
 		}
-		out.add(coqCDrop(sp.cfg(), si, A.Dir, X.Address(), sb.st.Address(), true, dcls, removed && empty, sb.intact), d, true)
+		out.add(coqCDrop(sp.cfg(), si, A.Dir, optDir, X.Address(), sb.st.Address(), true, dcls, removed && empty, sb.intact), d, true)
 		out.count("drop:" + sp.Variant)
 	}
 	return nil
+}
+
+// ---- scenario: close and reopen on the same instance, again and again ----
+
+// c18Cycle: a database is opened on instance A with the configuration of the scenario (a
+// Directory option other than the instance's directory, typically; through Create the first
+// time if ViaCreate, otherwise from an address A has never opened), then Cycles times closed and
+// opened again from its address with the same options.  Every incarnation loads, must find
+// everything acknowledged so far, writes, and is closed ("leaves the directory reopenable with all
+// acknowledged data").  Then the instance is closed and a fresh instance on the same directory
+// opens the database with the same options.
+func c18Cycle(r *Run, sp c18Spec, out *c18Result) error {
+	ctx := context.Background()
+	env, err := sharedEnv()
+	if err != nil {
+		return err
+	}
+	scenCounter++
+	sim.TheHooks.Reset()
+	env.Net.ResetTraffic(false)
+	label := fmt.Sprintf("c%d", scenCounter)
+	in := sim.NewInterner()
+	time.Sleep(30 * time.Millisecond)
+	before := goroutineIDs()
+	var A *sim.Replica
+	if sp.Mem {
+		A, err = memReplica(env, scenCounter*100, label)
+	} else {
+		A, err = env.NewReplica(scenCounter*100, label)
+	}
+	if err != nil {
+		return err
+	}
+	cfg := sp.cfg()
+	name := "cyc-" + label
+	pa, err := A.Orbit.DetermineAddress(ctx, name, sp.Type, &orbitdb.DetermineAddressOptions{AccessController: acBoth(A)})
+	if err != nil {
+		return err
+	}
+	addr := pa.String()
+	open := func(o orbitdb.OrbitDB, rep *sim.Replica, first bool) (iface.Store, error) {
+		return withMaxHistory(o, sp.MaxHist, func() (iface.Store, error) {
+			if first && sp.ViaCreate {
+				return o.Create(ctx, name, sp.Type, cfg.on(rep, cfg.dbOpts(0, acBoth(A))))
+			}
+			return o.Open(ctx, addr, cfg.on(rep, cfg.dbOpts(0, nil)))
+		})
+	}
+	var acked []string
+	var outcomes []int
+	var msgs []string
+	complete := true
+	worst := func(a, b int) int {
+		if b > a {
+			return b
+		}
+		return a
+	}
+	for i := 0; i <= sp.Cycles; i++ {
+		oc := clsOK
+		msg := ""
+		note := func(what string, c int, m string) {
+			oc = worst(oc, c)
+			if c != clsOK {
+				msg += fmt.Sprintf("%s: %s %s; ", what, clsName[c], m)
+			}
+		}
+		var st iface.Store
+		c, m := callClass(20*time.Second, func() error {
+			var err error
+			st, err = open(A.Orbit, A, i == 0)
+			return err
+		})
+		note("open", c, m)
+		if c != clsOK {
+			if i == 0 {
+				return fmt.Errorf("cycle: first open: %s %s", clsName[c], m)
+			}
+			outcomes, msgs, complete = append(outcomes, oc), append(msgs, msg), false
+			continue
+		}
+		if st.Address().String() != addr {
+			return fmt.Errorf("cycle: opened %s, expected %s", st.Address(), addr)
+		}
+		c, m = callClass(30*time.Second, func() error { return st.Load(ctx, -1) })
+		note("load", c, m)
+		if c != clsOK {
+			complete = false
+		} else if !sp.Mem && sp.MaxHist == 0 {
+			present := c18Hashes(st)
+			for _, h := range acked {
+				if !containsStr(present, h) {
+					complete = false
+					msg += "acknowledged entry missing after load; "
+					break
+				}
+			}
+		}
+		for k := 0; k < 1+r.Rng.Intn(2); k++ {
+			nBefore := st.OpLog().Len()
+			c, m = callClass(20*time.Second, func() error { return c18Write(r, st, 10*i+k) })
+			note("write", c, m)
+			if c == clsOK && st.OpLog().Len() > nBefore {
+				hs := c18Hashes(st)
+				for _, h := range hs {
+					if !containsStr(acked, h) {
+						acked = append(acked, h)
+					}
+				}
+			}
+		}
+		c, m = callClass(10*time.Second, st.Close)
+		note("close", c, m)
+		outcomes, msgs = append(outcomes, oc), append(msgs, msg)
+	}
+	d := map[string]interface{}{"kind": "cycle", "address": addr, "via_create": sp.ViaCreate, "cycles": sp.Cycles, "outcomes": outcomes, "messages": msgs,
+		"complete": complete, "acked": len(acked)}
+	sp.describe(d)
+	bad := !complete
+	for _, o := range outcomes {
+		if o != clsOK {
+			bad = true
+		}
+	}
+	if bad {
+		d["sig"] = "cycle:reopen-on-the-same-instance"
+		if cfg.CustomDir && strings.Contains(strings.Join(msgs, " "), "leveldb: closed") {
+			// the known one: the store was given the bare datastore, its Close left a closed cache registered
+			d["sig"] = "cycle:directory-option:reopened-store-has-a-closed-cache"
+		}
+	}
+	out.add(fmt.Sprintf("(CCycle %s %s %s %s)", cfg.coq(), sim.CoqBool(sp.ViaCreate), sim.CoqListN(outcomes), sim.CoqBool(complete)), d, true)
+	out.count(fmt.Sprintf("cycle:customdir=%v,memory=%v,via_create=%v", cfg.CustomDir, cfg.Mem, sp.ViaCreate))
+	// instance close: nothing left (the lookups' caches below the option's directory included)
+	c, m := callClass(20*time.Second, A.Orbit.Close)
+	leaks := settleLeaks(before, leakBudget)
+	out.addCloseCfg([]c18Cfg{cfg}, whenInstance, 1, false, leaks, []int{c}, []string{m}, map[string]interface{}{"note": "instance close after the cycles"})
+	// a fresh instance on the same directory, the same options
+	A2, err := env.NewReplicaOpts(A.Idx, label, A.Dir, A.PID, nil)
+	ccfg := c18Cfg{Repl: true, Mem: sp.Mem, CustomDir: cfg.CustomDir}.coq()
+	a := c18IDs(in, acked)
+	if err != nil {
+		out.add(fmt.Sprintf("(CReopen %s %s %s false)", ccfg, sim.CoqListN(a), sim.CoqListN(nil)),
+			map[string]interface{}{"kind": "reopen", "why": "after-cycles", "message": "reopen instance: " + err.Error(), "sig": "reopen:instance:after-cycles"}, true)
+		return nil
+	}
+	okAll, rmsg := true, ""
+	var present []string
+	var st iface.Store
+	if c, m := callClass(20*time.Second, func() error {
+		var err error
+		st, err = open(A2.Orbit, A2, false)
+		return err
+	}); c != clsOK {
+		okAll, rmsg = false, "open: "+clsName[c]+" "+m
+	} else {
+		amount := -1
+		if c, m := callClass(30*time.Second, func() error { return st.Load(ctx, amount) }); c != clsOK {
+			okAll, rmsg = false, "load: "+clsName[c]+" "+m
+		}
+		present = c18Hashes(st)
+	}
+	pr := c18IDs(in, present)
+	rd := map[string]interface{}{"kind": "reopen", "why": "after-cycles", "acked": len(a), "present": len(pr), "message": rmsg, "memory": sp.Mem, "config": cfg}
+	if sp.MaxHist > 0 {
+		// a limited load leaves older entries out on purpose: only that it answers is judged
+		a = nil
+	}
+	missing := 0
+	for _, x := range a {
+		if !containsInt(pr, x) {
+			missing++
+		}
+	}
+	if sp.Mem {
+		if !okAll {
+			rd["sig"] = "reopen:memory:after-cycles"
+		} else if len(pr) > 0 {
+			rd["sig"] = "reopen:memory-instance-found-data"
+		}
+	} else if !okAll || missing > 0 {
+		rd["sig"] = "reopen:after-cycles"
+		rd["missing"] = missing
+	}
+	out.add(fmt.Sprintf("(CReopen %s %s %s %s)", ccfg, sim.CoqListN(a), sim.CoqListN(pr), sim.CoqBool(okAll)), rd, len(a) > 0)
+	out.count("reopen")
+	c, m = callClass(20*time.Second, A2.Orbit.Close)
+	leaks = settleLeaks(before, leakBudget)
+	out.addCloseCfg([]c18Cfg{{Repl: cfg.Repl, Mem: sp.Mem, Limited: cfg.Limited, CustomDir: cfg.CustomDir}}, whenInstance, 1, false, leaks, []int{c}, []string{m},
+		map[string]interface{}{"note": "close of the reopened instance (store loaded, not closed individually)"})
+	if sp.Mem && memDirOnDisk() {
+		out.Direct = append(out.Direct, c18Direct{Sig: "memory:on-disk", What: "an instance on " + memDir + " left a directory of that name in the working directory", Case: map[string]interface{}{}})
+	}
+	return nil
+}
+
+func containsStr(l []string, x string) bool {
+	for _, y := range l {
+		if y == x {
+			return true
+		}
+	}
+	return false
 }
 
 // ---- scenario: Close of one of several databases that share a manifest root ----
@@ -2614,8 +2978,12 @@ type addrLike interface {
 	GetPath() string
 }
 
-func coqCDrop(cfg c18Cfg, si segInterner, dir string, dropped, sib addrLike, opened bool, dcls int, droppedEmpty, siblingIntact bool) string {
-	return fmt.Sprintf("(CDrop %s %s %s %s %s %s %s %s %s %s)", cfg.coq(), sim.CoqListN(si.dir(dir)),
+func coqCDrop(cfg c18Cfg, si segInterner, dir, opt string, dropped, sib addrLike, opened bool, dcls int, droppedEmpty, siblingIntact bool) string {
+	var o []int
+	if opt != "" {
+		o = si.dir(opt)
+	}
+	return fmt.Sprintf("(CDrop %s %s %s %s %s %s %s %s %s %s %s)", cfg.coq(), sim.CoqListN(si.dir(dir)), sim.CoqListN(o),
 		sim.CoqN(si.in.ID(dropped.GetRoot().String())), sim.CoqList(si.segs(dropped.GetPath())),
 		sim.CoqN(si.in.ID(sib.GetRoot().String())), sim.CoqList(si.segs(sib.GetPath())),
 		sim.CoqBool(opened), sim.CoqN(dcls), sim.CoqBool(droppedEmpty), sim.CoqBool(siblingIntact))
@@ -2722,7 +3090,7 @@ func c18Alias(r *Run, sp c18Spec, out *c18Result) error {
 	} else if dcls != clsOK || ocls >= clsPanic {
 		d["sig"] = "alias:" + clsName[dcls]
 	}
-	out.add(coqCDrop(sp.cfg(), si, A.Dir, dropped, vaddr, ocls == clsOK, dcls, true, intact), d, true)
+	out.add(coqCDrop(sp.cfg(), si, A.Dir, "", dropped, vaddr, ocls == clsOK, dcls, true, intact), d, true)
 	out.count("alias:" + sp.Variant)
 	return nil
 }
